@@ -342,7 +342,7 @@ func runC14(r *core.Run) {
 					for _, vs := range []string{"id", "edge"} {
 						// masks: none; on contiguous tensors every mask for n<=4, two patterns otherwise
 						masks := []int{-1}
-						if lay == "C" && n >= 1 && vs == "id" {
+						if (lay == "C" || lay == "T") && n >= 1 && vs == "id" {
 							if n <= 4 {
 								for m := 0; m < 1<<uint(n); m++ {
 									masks = append(masks, m)
@@ -353,6 +353,9 @@ func runC14(r *core.Run) {
 						}
 						for _, mb := range masks {
 							c14Case(r, f, d, shape, lay, vs, mb)
+							if lay == "C" && mb >= 0 && len(shape) >= 1 {
+								c14Case(r, f, d, shape, "Srow", vs, mb) // the same masked contents as a row view with an offset mask window
+							}
 						}
 					}
 				}
@@ -418,7 +421,47 @@ func c14Case(r *core.Run, f ioFmt, d ref.DT, shape []int, lay, vs string, mbits 
 			if len(shape) == 0 {
 				return nil
 			}
-			t = tensor.New(tensor.WithShape(shape...), tensor.WithBacking(back, mask))
+			switch lay {
+			case "T": // a masked tensor with a pending lazy transpose: data and mask are stored in the order of the reversed shape
+				if len(shape) < 2 {
+					return nil
+				}
+				rs := rev(shape)
+				cells := ref.RootC(rs).Permute(ref.Reversal(len(shape))).Cell
+				sback, smask := d.MakeSlice(n), make([]bool, n)
+				for i, c := range cells { // logical element i lives in storage cell c
+					ref.SliceSet(sback, c, vals[i])
+					smask[c] = mask[i]
+				}
+				t = tensor.New(tensor.WithShape(rs...), tensor.WithBacking(sback, smask))
+				if err := t.T(); err != nil {
+					return nil
+				}
+			case "Srow": // rows 1.. of a masked tensor with one more leading row: a contiguous view with an offset mask window
+				rs := ref.CopyInts(shape)
+				rs[0]++
+				rowLen := n / shape[0]
+				sback, smask := d.MakeSlice(n+rowLen), make([]bool, n+rowLen)
+				for i := 0; i < rowLen; i++ {
+					ref.SliceSet(sback, i, d.Code(77))
+					smask[i] = i%2 == 0
+				}
+				for i := 0; i < n; i++ {
+					ref.SliceSet(sback, rowLen+i, vals[i])
+					smask[rowLen+i] = mask[i]
+				}
+				root := tensor.New(tensor.WithShape(rs...), tensor.WithBacking(sback, smask))
+				v, err := root.Slice(tensor.S(1, rs[0]))
+				if err != nil {
+					return nil
+				}
+				t = v.(*tensor.Dense)
+				if !ref.EqInts(t.Shape(), shape) {
+					return nil
+				}
+			default:
+				t = tensor.New(tensor.WithShape(shape...), tensor.WithBacking(back, mask))
+			}
 		} else {
 			b := buildVerified(d, shape, vals, lay)
 			if b == nil {
